@@ -80,7 +80,9 @@ impl FromStr for Type {
     type Err = &'static str;
 
     fn from_str(text: &str) -> Result<Self, Self::Err> {
-        match Caseless(text) {
+        // Patterns match structurally (i.e. case-sensitively), so the
+        // text is normalized to upper case first.
+        match Caseless(&text.to_ascii_uppercase()) {
             Caseless("A") => Ok(Self::A),
             Caseless("NS") => Ok(Self::NS),
             Caseless("MD") => Ok(Self::MD),
